@@ -64,6 +64,7 @@ func runC06(r *fw.Run, p *fw.Program) {
 	c06Sentinel(r, p, reach)
 	c06WrapGuard(r, p)
 	c06ForceEq(r, p)
+	c06TypedNil(r, p)
 	c06ExploreArrays(p)
 	c06Sym(r, p)
 	c06OutType(r, p)
@@ -320,6 +321,13 @@ func c06Panic(r *fw.Run, p *fw.Program, recov *types.Interface, reach map[*ssa.F
 				return
 			}
 			if reason, ok := panicExceptions[base]; ok {
+				if chk, has := panicExceptionChecks[base]; has {
+					if why := chk(p, pn); why != "" {
+						ru.Fail(key, p.Rel(pn.Pos()), "the exception for this panic ("+reason+") no longer holds: "+why)
+						return
+					}
+					reason += " [precondition checked]"
+				}
 				ru.Except(key, p.Rel(pn.Pos()), reason)
 				return
 			}
